@@ -80,10 +80,19 @@ void depthLeave() {
 int depthMax() {
   return g_depth_max;
 }
+static std::vector<void*>* g_kept;
+void keepAlive(void* p) {
+  if (!g_kept)
+    g_kept = new std::vector<void*>();
+  g_kept->push_back(p);
+}
 
 } // namespace hx
 
 using hx::Workload;
+
+extern "C" int __lsan_do_recoverable_leak_check() __attribute__((weak));
+extern "C" void __asan_init() __attribute__((weak));
 
 static uint64_t mix(uint64_t z) {
   z += 0x9e3779b97f4a7c15ull;
@@ -95,7 +104,8 @@ static uint64_t mix(uint64_t z) {
 static std::vector<const Workload*> select(const char* prop, const char* wname, int tier) {
   std::vector<const Workload*> v;
   for (const Workload& w : hx::registry()) {
-    if (strcmp(w.prop, prop))
+    // "ALL" (used by the whole-library sanitizer checks C10/C11) selects every workload
+    if (strcmp(prop, "ALL") && strcmp(w.prop, prop))
       continue;
     if (wname && strcmp(w.name, wname))
       continue;
@@ -155,12 +165,25 @@ static void runOne(const Workload* w, uint64_t seed, const Args& a, const char* 
   o.trace_path = tracePath;
   o.prop = w->prop;
   o.workload = w->name;
+  // SIM+ASAN engine: pre-emption comes from the coverage guard quantum (see simrt.cpp)
+  if (__asan_init)
+    o.pcguard_quantum_max = 150;
+  if (a.prop && !strcmp(a.prop, "ALL"))
+    sim_set_memonly(1);
   alarm(300);
   sim_begin(&o);
   sim_note(w->name, 0);
   w->fn();
   sim_end();
   sim_report_soft();
+  if (__lsan_do_recoverable_leak_check && __lsan_do_recoverable_leak_check()) {
+    // the report went to stderr (kept by the parent); classify as a leak
+    char lbuf[8192];
+    sim_result_line(lbuf, sizeof lbuf, "leak", "lsan", "LeakSanitizer reported unreachable memory (see stderr file)");
+    ssize_t lr = write(1, lbuf, strlen(lbuf));
+    (void)lr;
+    _exit(78);
+  }
   char buf[8192];
   sim_result_line(buf, sizeof buf, "ok", "", "");
   ssize_t r = write(1, buf, strlen(buf));
@@ -310,7 +333,9 @@ int main(int argc, char** argv) {
     int reps = a.twice ? 2 : 1;
     for (int r = 0; r < reps; ++r) {
       int st = forkRun(w, seed, a, recp, a.trace, err);
-      if (WIFSIGNALED(st) || (WIFEXITED(st) && WEXITSTATUS(st) != 0)) {
+      if (WIFEXITED(st) && WEXITSTATUS(st) == 78) {
+        // leak: the child printed its own result line; keep its stderr (the LSan report)
+      } else if (WIFSIGNALED(st) || (WIFEXITED(st) && WEXITSTATUS(st) != 0)) {
         int code = WIFSIGNALED(st) ? WTERMSIG(st) : WEXITSTATUS(st);
         const char* kind = WIFSIGNALED(st) ? (code == SIGALRM ? "timeout" : "crash") : (code == 77 ? "sanitizer" : "crash");
         printf("{\"seed\":%llu,\"status\":\"%s\",\"class\":\"%s-%d\",\"workload\":\"%s\",\"stderr\":\"%s\"}\n",
